@@ -92,6 +92,11 @@ def gen_num_expr(rnd, depth, want_int=False):
         a, ia = gen_num_expr(rnd, depth - 1, want_int)
         b, ib = gen_num_expr(rnd, depth - 1, want_int)
         return ["bin", op, a, b], ia and ib
+    if rnd.random() < 0.2:
+        # `%` is the IEEE remainder on doubles: fractional operands, fractional and negative divisors
+        a, _ = gen_num_expr(rnd, depth - 1)
+        b = num(rnd.choice([2, 0.25, 1.5, -2, 0.5, 3, 7.5])) if rnd.random() < 0.8 else col("f0")
+        return ["bin", "mod", a, b], False
     op = rnd.choice(ARITH)
     a, ia = gen_num_expr(rnd, depth - 1)
     b, ib = gen_num_expr(rnd, depth - 1)
